@@ -135,6 +135,18 @@ CLAIMS.update({
             'TLA+ spec + TLC (incl. negative self-test), terminal states executed on a real filesystem, trace validation', 'DESIGN.md section 5 C14', 'fileio'),
 })
 
+CLAIMS.update({
+    'C12': ('model_checking',
+            'Fits.tla models the writer (shape name, ! prefix, semi-axes, ROTANG, column padding, component numbering) and the reader (per-shape '
+            'column map); TLC checks Decode(Encode(L)) = Representable(L) with identical integers, exclusion and components preserved, fresh '
+            'components distinct, unsupported items as stutter steps, and the parse/serialise/parse fixed point over all lists of length <= 2 '
+            '(and 3 over a smaller pool); with the code-shaped deviation BangBeforeMap the model itself yields the excluded-ellipse '
+            'counterexample. Every state is replayed: real table compared column by column, real parse in memory and through a file, fixed '
+            'point; box/rectangle/rotrectangle notations from hand-built tables; random lists of 1..8 validated by Trace_Fits.tla.',
+            'Numbers are multiples of 1/4 pixel/degree (exact in FITS doubles). astropy.table/io.fits trusted for the byte format.',
+            'TLA+ spec + TLC exhaustive, spec->code replay of every state, code->spec trace validation', 'DESIGN.md section 5 C12', 'fits'),
+})
+
 PENDING_REASON = ('specification module for this property is designed in DESIGN.md but its TLA+ module and '
                   'conformance binding are not built yet; not claimed until they are')
 
@@ -204,6 +216,8 @@ ENGINES.append({'name': 'pixcoord', 'path': 'specs/PixCoord.tla specs/MC_PixCoor
                 'serves_properties': ['C20'], 'kind_free_text': 'array model of PixCoord: broadcasting, indexing, group laws, rotation'})
 ENGINES.append({'name': 'fileio', 'path': 'specs/FileIO.tla specs/Trace_FileIO.tla vf/engines/c14.py',
                 'serves_properties': ['C14'], 'kind_free_text': 'step-ordered write model executed on a scratch filesystem'})
+ENGINES.append({'name': 'fits', 'path': 'specs/Fits.tla specs/MC_Fits.tla specs/Trace_Fits.tla vf/engines/c12.py',
+                'serves_properties': ['C12'], 'kind_free_text': 'FITS region table writer/reader model'})
 NA = {}
 
 
